@@ -48,6 +48,15 @@ CLAIMED = {
              "offsets. Literal-zone dump formats are exercised end-to-end by the correspondence (dumpzone op), not yet modelled.",
         design="DESIGN §8 C06",
         technique="Lean 4 proof (corollary of C01) + model/implementation correspondence"),
+    "C11": dict(
+        text="Theorems over the Lean model of Duration (__add__, __mul__, __eq__, __hash__, ordering, get_days_and_seconds, "
+             "constructor): addition is commutative and associative field for field, the empty duration is the identity, "
+             "d + (-1*d) is empty, n*d equals n-fold addition, 1W=7D=168H..., == holds exactly when years, months and the "
+             "exact remainder match (an equivalence), equal durations hash equally, and <,<=,>,>= are the order of the "
+             "rough length (common-year length, 30-day month), hence mutually consistent. Integer components for all Int; "
+             "decimal components are observed only, within tolerance.",
+        design="DESIGN §8 C11",
+        technique="Lean 4 proof (linear arithmetic over Int) + model/implementation correspondence"),
     "C03": dict(
         text="Theorems over the Lean model: the six conversions are total on valid dates, produce valid dates and "
              "preserve the Spec day number (so all round trips are identities), for every year in Int and all four "
